@@ -464,6 +464,8 @@ def _kv2_compare(ctx, case, cfg, res, emitted, it):
     ctx.count('kv2-hyp:' + str(bool(emitted.get('hyp'))))
     if not emitted.get('hyp'):
         ctx.disagree(case, 'exportable graph', 'graphWf/uuidsOK/nestAllOK = false', 'generator left the domain of C14_kv2')
+    if not emitted.get('bfs'):
+        ctx.disagree(case, 'graph numbered by the export traversal', 'bfsOrdered = false', 'generator left the domain of C14_kv2_nested')
     if not emitted.get('orderOK'):
         ctx.disagree(case, 'reachable graph', emitted.get('order'), 'emission order is not a permutation of the elements (orderOK = false)')
     if uncodes(emitted.get('text', [])) != body:
